@@ -1142,13 +1142,13 @@ func ImportToPath(pkgPath, pkgName string) string {
 }
 
 func (decl ImportDecl) CoqDecl() string {
-	coqPath := pathToCoqPath(decl.Path)
-	coqImportPath := strings.ReplaceAll(path.Dir(coqPath), "/", ".")
-	name := path.Base(coqPath)
+	// the logical path is the whole import path (for a path of a single
+	// element, path.Dir would contribute a spurious "." component)
+	logicalPath := strings.ReplaceAll(pathToCoqPath(decl.Path), "/", ".")
 	if decl.Trusted {
-		return fmt.Sprintf("From Perennial.goose_lang.trusted Require Import %s.%s.", coqImportPath, name)
+		return fmt.Sprintf("From Perennial.goose_lang.trusted Require Import %s.", logicalPath)
 	} else {
-		return fmt.Sprintf("From Goose Require %s.%s.", coqImportPath, name)
+		return fmt.Sprintf("From Goose Require %s.", logicalPath)
 	}
 }
 
